@@ -68,6 +68,7 @@ class World:
         self.cur = None          # instruction being executed
         self.cur_info = {}       # facts about the current step
         self.pending_final = None    # finalize limbo at creation request k
+        self.pending_line = None     # ... or at the k-th line executed inside dd (settrace)
         self.mdd = None
         self.notes = []
         self.log = []            # event log (for determinism digests)
